@@ -88,6 +88,18 @@ class BadEq:
     def __bool__(self):
         raise ValueError("bad __bool__")
 
+class BadAll:
+    def __getattribute__(self, name):
+        raise RuntimeError("bad __getattribute__ " + name)
+
+class SlowStr:
+    def __init__(self, tag):
+        self.tag = tag
+    def __str__(self):
+        __import__("time").sleep(0.15)
+        return "SlowStr(%s)" % (self.tag,)
+    __repr__ = __str__
+
 class IntKey:
     pass
 
@@ -141,6 +153,10 @@ OFFENDERS = (
     "{'nested': {'deep': [BadStr(9)]}}", "[BadLen([1])]", "__import__('collections').OrderedDict(a=1)",
     "__import__('collections').namedtuple('NT', 'a b')(1, 2)", "zip([1], [2])", "enumerate([5])",
 )
+
+
+# used by C06 only: a wholly hostile object, and one whose rendering alone outlasts the per-tracepoint time budget
+OFFENDERS_HOSTILE = ("BadAll()", "SlowStr(7)")
 
 
 def value_expr(r, depth=0, offenders=False, maxdepth=3):
